@@ -75,7 +75,8 @@ CHECKS = {
         text=("Theorems over the Gallina transcription of json_writer.to_json and json_reader.parse_tree/parse_constraints: for "
               "every model of the JSON fragment (any tree, any relation cardinalities, any names, any attribute values) the reader "
               "applied to what the writer produced returns the same model with correct back pointers — plain equality — and "
-              "therefore any number of cycles; the fuel (document depth) the reader model uses is proved sufficient. The JSON text "
+              "therefore any number of cycles; the fuel (document depth) the reader model uses is proved sufficient; objects are read by key, not position "
+              "(entries of any object with distinct keys may be permuted at any depth, except inside the two values stored raw). The JSON text "
               "layer (json.dumps/loads) is an external-library hypothesis validated by parsing the implementation's file on every case."),
         note="Coq kernel; extraction/driver; harness; json module round trip; no axioms",
         technique="Coq proof (round-trip by induction over the tree) + differential correspondence on writer and reader",
@@ -147,9 +148,11 @@ CHECKS = {
               "is invariant under graphics / description elements, mandatory=\"false\" / abstract=\"false\", attribute order, "
               "reads n-ary conj / disj as the left fold, and reads the canonical document of a model as that model (also with no "
               "constraints section). AFM — redundant parentheses anywhere in any constraint of a document and absent sections do not change what is read; "
-              "Glencoe — undefined top-level keys are ignored wherever they stand, n-ary And/Or/Xor terms are left folds. PARTIAL "
-              "for AFM and Glencoe beyond that: the denotation of their reference-emitter documents is decided by the oracle on "
-              "suites R-afm-3p / R-glencoe-3p, not by a theorem. The shipped corpus is read by model and implementation and compared "
+              "Glencoe — closure theorems over whole documents: keys the format does not define inserted at any level (document, "
+              "features entries, tree nodes, constraint terms), n-ary And/Or/Xor terms flattened anywhere, entries of objects "
+              "permuted (except the constraints object, whose order is the constraint order — the unrestricted claim is refuted) "
+              "do not change what is read. PARTIAL for AFM and Glencoe beyond that: that the reference-emitter documents denote "
+              "their reference models is decided by the oracle on suites R-afm-3p / R-glencoe-3p, not by a theorem. The shipped corpus is read by model and implementation and compared "
               "with Betty's own statistics."),
         note=("Coq kernel; extraction/driver; harness reference emitters (the reading of the four formats); external XML / JSON / "
               "ANTLR parsers; no axioms"),
